@@ -35,7 +35,7 @@ REQUIRED_COUNTERS = {'c02_explored_jobs': 16, 'c02_crash_placements': 40,
                      'c02_reject_placements': 40}
 SHARD_TIMEOUT = {'quick': 900, 'thorough': 5400}
 
-LAYOUTS = ['d2', 's1d2', 'd1M1d2', 'd3']
+LAYOUTS = ['d2', 's1d2', 'd1M1d2', 'd3', 'd4', 's1d3', 'd5']
 SCEN = ['first_eval', 'queue_entry', 'queue_merge', 'second_entry',
         'two_merge', 'source_moved', 'decline', 'reset', 'rebuild',
         'delete_queues', 'force_merge', 'create_branch', 'create_stab',
@@ -54,14 +54,28 @@ def combos(seed):
                 for child_prs in (False, True):
                     for octo in ((), ('no_octopus',)):
                         out.append((sc, layout, qm, child_prs, octo))
-    random.Random('c02-%s' % seed).shuffle(out)
+    rng = random.Random('c02-%s' % seed)
+    rng.shuffle(out)
     # make sure every scenario comes early: stable sort by occurrence index
     seen, ranked = {}, []
     for c in out:
         seen[c[0]] = seen.get(c[0], 0) + 1
         ranked.append((seen[c[0]], c))
     ranked.sort(key=lambda x: x[0])
-    return [c for _, c in ranked]
+    rest = [c for _, c in ranked]
+    # landing jobs on long cascades (4-5 targets) first: that is where one
+    # logical update spans most refs
+    first = []
+    for sc, qms in (('queue_merge', ('queue',)),
+                    ('two_merge', ('queue', 'skipqueue')),
+                    ('queue_entry', ('noqueue', 'skipqueue', 'queue')),
+                    ('force_merge', ('queue',))):
+        for layout in ('d4', 's1d3', 'd5'):
+            for qm in qms:
+                first.append((sc, layout, qm, rng.random() < 0.5,
+                              rng.choice([(), ('no_octopus',)])))
+    rng.shuffle(first)
+    return first[:16] + [c for c in rest if c not in first[:16]]
 
 
 def plan(tier, seed):
